@@ -190,7 +190,7 @@ func OpenNode(dir string) (*Node, abcitypes.ResponseInfo, error) {
 	return &Node{Dir: dir, App: app}, info, nil
 }
 
-func (n *Node) Close() { _ = guard(func() { _ = n.App.Stop() }) }
+func (n *Node) Close() { _ = guard(func() { _ = n.App.VerifStopAll() }) }
 
 // guard converts a panic into an error
 func guard(f func()) (err error) {
